@@ -25,6 +25,8 @@ func c17(p *core.Program, r *core.Report) {
 	r.Rule("R3", "single ownership function: executor.shardsByNode decides placement only through cluster.shardNodes/ShardNodes (shared with C20)")
 	r.Rule("R4", "candidates are cut only after the exact recount: in executeTopN the only truncation to n applies to the list returned by the second, ids-restricted executeTopNShards call made by the original caller; a node answering a remote leg returns its whole merged candidate list (cutting it there makes the candidate set depend on which node coordinates and how shards are grouped onto nodes)")
 	c17TopN(p, r)
+	r.Rule("R7", "fail-over re-maps the failed leg only: inside executor.mapReduce's response loop every call of executor.mapper passes the shards field of a received mapResponse as its shards; the request's whole shard list is mapped once, before the loop")
+	c17FailoverRemapsTheFailedLeg(p, r)
 	r.NotDecided = "associativity of RowIDs.merge / mergeGroupCounts under limit, retry re-mapping after node failure, TopN tie order"
 	pk := p.Pkg("")
 	if pk == nil {
